@@ -737,7 +737,8 @@ section totality
 variable {R : Type} [CommRing R]
 
 theorem add_eq_ok {p q r : LP R} (h : p.add q = .ok r) :
-    (p.iszero = true ∧ r = LP.mk' q.coefs q.dmin) ∨
+    (p.iszero = true ∧
+      r = if q.iszero then LP.mk' [] q.dmin else LP.mk' q.coefs q.dmin) ∨
     (p.iszero = false ∧ q.iszero = true ∧ r = LP.mk' p.coefs p.dmin) ∨
     (p.iszero = false ∧ q.iszero = false ∧ p.parity = q.parity ∧
       ∃ a b : List R, r = LP.mk' (zipAdd a b) (min p.dmin q.dmin) ∧
@@ -767,7 +768,7 @@ theorem add_eq_ok {p q r : LP R} (h : p.add q = .ok r) :
 theorem add_parity {p q r : LP R} (h : p.add q = .ok r) (π : ℤ)
     (hp : p.iszero = true ∨ p.parity = π) (hq : q.parity = π) : r.parity = π := by
   rcases add_eq_ok h with ⟨_, rfl⟩ | ⟨hp0, _, rfl⟩ | ⟨hp0, _, hpar, a, b, rfl, _, _⟩
-  · unfold LP.parity at *; rw [dmin_mk']; exact hq
+  · unfold LP.parity at *; split <;> (rw [dmin_mk']; exact hq)
   · rcases hp with hp | hp
     · rw [hp0] at hp; cases hp
     · unfold LP.parity at *; rw [dmin_mk']; exact hp
@@ -778,7 +779,7 @@ theorem add_parity {p q r : LP R} (h : p.add q = .ok r) (π : ℤ)
 theorem add_iszero_false {p q r : LP R} (hp : p.WF) (hq : q.WF) (h : p.add q = .ok r)
     (hq0 : q.iszero = false) : r.iszero = false := by
   rcases add_eq_ok h with ⟨_, rfl⟩ | ⟨_, hq1, _⟩ | ⟨_, _, _, a, b, rfl, ha, hb⟩
-  · exact iszero_mk'_of_ne_nil hq.1 _
+  · rw [hq0, if_neg Bool.false_ne_true]; exact iszero_mk'_of_ne_nil hq.1 _
   · rw [hq0] at hq1; cases hq1
   · apply iszero_mk'_of_ne_nil
     intro hz
@@ -906,7 +907,7 @@ theorem go_refuses (cs : List ℚ) (k : ℕ) (pw acc : LP ℚ) (hpw : PwInv k pw
     · obtain ⟨s1, s2, s3⟩ := smul_of_pwInv c hpw
       have hr : acc.add (LP.smul c pw) =
           .ok (LP.mk' (LP.smul c pw).coefs (LP.smul c pw).dmin) := by
-        simp [LP.add, hz]
+        simp [LP.add, hz, s2]
       rw [hr]
       have hrpar : (LP.mk' (LP.smul c pw).coefs (LP.smul c pw).dmin).parity = (-(k : ℤ)) % 2 := by
         rw [← s3]; unfold LP.parity; rw [dmin_mk']
